@@ -7,7 +7,8 @@ from fractions import Fraction
 import common as C
 
 ID = "C05"
-COQ_TARGETS = ["Properties/C05.vo"]
+COQ_TARGETS = ["Properties/C05.vo", "GenFacts/ResolutionFacts.vo"]
+EXTRA_OBLIGATIONS = ["resolution_facts_true"]
 MODEL_TARGETS = ["Model/Comb.vo"]
 IMPORTS = "From Ka Require Import Model.Num Model.Comb.\nOpen Scope string_scope.\n"
 
@@ -139,7 +140,9 @@ def impl_case(text):
 
 def impl_ctx(text):
     """a lazy value used in other positions: tagged with a unit, inside an array, under sqrt"""
-    return [C.observe("(%s) m" % text), C.observe("{%s}" % text), C.observe("x = %s; x + 0" % text)]
+    return [C.observe("(%s) m" % text), C.observe("{%s}" % text), C.observe("x = %s; x + 0" % text),
+            # a value that was already resolved once (used as a plain number) is used lazily again
+            C.observe("x = %s; y = x + 1; (x * 2) / 2" % text), C.observe("x = %s; y = x < 1; z = {x}; (6 / x) * x / 6" % text)]
 
 
 def totuple(x):
@@ -221,7 +224,7 @@ def run(ctx):
         t, s = trees[i], texts[i]
         sp = eager(t)
         exp = enc(sp)
-        names = ["tagged with a unit", "inside an array", "assigned then used"]
+        names = ["tagged with a unit", "inside an array", "assigned then used", "resolved, then multiplied", "resolved, then divided by"]
         for o, nm in zip(os_, names):
             ok, why = C.well_formed_outcome(o)
             if not ok:
@@ -233,12 +236,20 @@ def run(ctx):
                     rep.violation(dict(kind="lazy-position-value", position=nm), "%s should be a division-by-zero error" % o.get("text"),
                                   dict(text=o.get("text"), impl=o.get("value")))
                 continue
+            if nm == "resolved, then divided by" and sp == 0:
+                continue          # 6 / 0: a division by zero is the right answer there
             if o["status"] != 0:
                 rep.violation(dict(kind="lazy-position-value", position=nm), "%s failed: %s" % (o.get("text"), o.get("err", "")[:80]),
                               dict(text=o.get("text"), err=o.get("err")))
                 continue
             v = o["value"]
-            want = {"tagged with a unit": "Q:%s|" % exp, "inside an array": "A:[%s]" % exp, "assigned then used": exp}[nm]
+            if nm == "resolved, then divided by":
+                if sp == 0:
+                    continue
+                exp_here = "I:1"
+            else:
+                exp_here = exp
+            want = {"tagged with a unit": "Q:%s|" % exp, "inside an array": "A:[%s]" % exp}.get(nm, exp_here)
             if not v.startswith(want):
                 rep.violation(dict(kind="lazy-position-value", position=nm), "%s delivers %s, expected %s…" % (o.get("text"), v, want),
                               dict(text=o.get("text"), impl=v, expected=want))
@@ -247,7 +258,7 @@ def run(ctx):
                 rep.violation(dict(kind="lazy-display", position=nm), "%s displays the internal form: %s" % (o.get("text"), o["out"].strip()),
                               dict(text=o.get("text"), out=o["out"]))
     rep.coverage.update(dict(
-        evaluations=len(trees) + 3 * len(ctx_sample), distinct_nontrivial=len(nontrivial),
+        evaluations=len(trees) + 5 * len(ctx_sample), distinct_nontrivial=len(nontrivial),
         rule="exhaustive: every pair of integer ranges with endpoints 1..7 written as (b!/(a-1)!)/(d!/(c-1)!) (2401, all overlap cases of IntRange.difference) and all * and / of 11 atoms (0!,1!,2!,4!,7!,C(5,2),C(4,7),-3,0,2,3/4); plus %d seeded random trees (depth<=6, zero/negative factors, + - comparisons and numeric functions at the boundary); each 7th also tagged with a unit, inside an array and through a variable; non-trivial = contains a lazy value under at least one operator; distinct by text" % (len(trees) - n_exh),
         exhaustive=False, samples=samples, outcome_histogram=hist, traces_validated_against_impl=len(trees),
         disagreements=disagreements, kernel_lane_cases=len(model) if model else 0))
